@@ -51,7 +51,7 @@ TEMPLATES = [
     ('/a', 'echo'), ('/a/b', 'echo'), ('/items/{id}', 'echo'), ('/items/{id}/sub', 'echo'),
     ('/n/{num:int}', 'echo'), ('/u/{uid:uuid}', 'echo'), ('/files/{p:path}', 'echo'),
     ('/x/{a}-{b}', 'echo'), ('/x/{a}/y/{b:int(min=1)}', 'echo'), ('/long/literal/path', 'echo'),
-    ('/e/{code:int}', 'error'), ('/m/{k}', 'media'), ('/items/{id}/detail/{d}', 'echo'),
+    ('/e/{code:int}', 'error'), ('/ea/{code:int}', 'errorA'), ('/eb/{code:int}', 'errorB'), ('/m/{k}', 'media'), ('/items/{id}/detail/{d}', 'echo'),
     ('/v{ver:int}/r', 'echo'),
 ]
 
@@ -128,6 +128,18 @@ def _observe(req, params, body):
     }
 
 
+class ErrA(falcon.HTTPError):
+    pass
+
+
+class ErrB(falcon.HTTPError):
+    pass
+
+
+HOT_FUNCS = ('_handle_exception', '_find_error_handler', '_compose_error_response', '_get_responder',
+             '_compile_and_find', 'find', '_http_error_handler')
+
+
 def build_app(plan, asgi, record, pause=None):
     mws = []
     if asgi:
@@ -168,9 +180,31 @@ def build_app(plan, asgi, record, pause=None):
     cls = falcon.asgi.App if asgi else falcon.App
     app = cls(middleware=mws, independent_middleware=plan['independent_mw'])
 
+    if asgi:
+        async def handle_a(req, resp, ex, params):
+            resp.status = 470
+            resp.text = 'handler A: %s %s' % (req.get_header('X-Tag'), ex.description)
+
+        async def handle_b(req, resp, ex, params):
+            resp.status = 471
+            resp.text = 'handler B: %s %s' % (req.get_header('X-Tag'), ex.description)
+    else:
+        def handle_a(req, resp, ex, params):
+            resp.status = 470
+            resp.text = 'handler A: %s %s' % (req.get_header('X-Tag'), ex.description)
+
+        def handle_b(req, resp, ex, params):
+            resp.status = 471
+            resp.text = 'handler B: %s %s' % (req.get_header('X-Tag'), ex.description)
+    app.add_error_handler(ErrA, handle_a)
+    app.add_error_handler(ErrB, handle_b)
+
     def respond(kind, ridx, req, resp, params, body):
         obs = _observe(req, params, body)
         record.setdefault(req.get_header('X-Tag'), []).append(obs)
+        if kind in ('errorA', 'errorB'):
+            cls_ = ErrA if kind == 'errorA' else ErrB
+            raise cls_(params.get('code'), description='tag=%s q=%s' % (obs['tag'], obs['q']))
         if kind == 'error':
             code = params.get('code')
             raise falcon.HTTPError(code, title='E%s' % code,
@@ -293,19 +327,21 @@ def run_threads(ctx, plan):
         locs = solo_locs[t]
         if not locs:
             continue
-        zone = ch.weighted([3, 4, 3], 'preempt_zone')     # 0 lock boundary, 1 router, 2 anywhere
+        zone = ch.weighted([3, 4, 3, 3], 'preempt_zone')  # 0 lock boundary, 1 router, 2 anywhere, 3 hot functions
         if zone == 0:
-            cand = [i for i, (f, _l) in enumerate(locs) if f == '<lock>']
+            cand = [i for i, x in enumerate(locs) if x[0] == '<lock>']
         elif zone == 1:
-            cand = [i for i, (f, _l) in enumerate(locs) if f == '<string>' or f.endswith('routing/compiled.py')]
+            cand = [i for i, x in enumerate(locs) if x[0] == '<string>' or x[0].endswith('routing/compiled.py')]
+        elif zone == 3:
+            cand = [i for i, x in enumerate(locs) if x[2] in HOT_FUNCS]
         else:
             cand = None
         if cand:
             idx = cand[ch.draw(len(cand), 'preempt_at')]
         else:
             idx = ch.draw(len(locs), 'preempt_at')
-        f, line = locs[idx]
-        occ = 1 + sum(1 for x in locs[:idx] if x == (f, line))
+        f, line = locs[idx][0], locs[idx][1]
+        occ = 1 + sum(1 for x in locs[:idx] if x[0] == f and x[1] == line)
         triggers.setdefault((t, f, line), set()).add(occ)
         chosen.append((t, f.rsplit('/', 1)[-1], line, occ))
     total_events = sum(len(x) for x in solo_locs)
@@ -515,7 +551,7 @@ def run(ctx):
     plan = gen_plan(ch)
     for r in plan['reqs']:
         tpl, kind = TEMPLATES[r['route']]
-        if kind == 'error':
+        if kind.startswith('error'):
             ctx.probe('error_route')
         if r['method'] == 'POST':
             ctx.probe('post_body')
